@@ -149,7 +149,7 @@ def parseSchema (n : Nat) : List DTok → Option (SchemaS × List DTok)
     | none => none
   | _ => none
 
-/-- what is read back: type-object identities forgotten, supertype expressions regrouped -/
+/-- what is read back: type-object identities forgotten (`EntityDecl.norm` is the identity since a right operand keeps its parentheses) -/
 def Decl.erase : Decl → Decl
   | .typeD d => .typeD d
   | .entityD e => .entityD e.norm
